@@ -238,6 +238,14 @@ def run(ctx):
             r4.check(fld in written and (fld in reads or fld in callee_reads), "state:" + fld, "%s is written by SET and read by SHOW" % fld,
                      "%s: written=%s read=%s" % (fld, fld in written, fld in reads or fld in callee_reads))
 
+    # a refused command establishes nothing: SHOW keeps reporting what the last accepted SET established
+    from common import set_shard_refusal_findings
+    for key, ok, okmsg, failmsg in set_shard_refusal_findings(F):
+        if ok is None:
+            r4.missing(key)
+        else:
+            r4.check(ok, "refused-set-shard:" + key, okmsg, failmsg)
+
     # ---------------- R5 totality on query-derived text
     r5 = ctx.rule("C13-R5", "try_execute_command has no panic-capable operation on data derived from the query text other than the discharged ones (numeric arguments of any length get a reply, not a panic)", floor=5)
     if tec:
